@@ -11,7 +11,7 @@ from . import common
 
 LEVEL = "translation_validation"
 # classes whose export is known to disagree with their parsing (see known_findings.json); first match names the culprit of a failing member
-SUSPECTS = ["Array:bits", "Enum", "FlagsEnum", "Padded", "NullTerminated", "Prefixed:includelength", "IfThenElse", "PaddedString", "Bytes", "Const", "Padding", "RepeatUntil", "If"]
+SUSPECTS = ["Array:bits", "If:bits", "Enum", "FlagsEnum", "Padded", "NullTerminated", "Prefixed:includelength", "IfThenElse", "PaddedString", "Bytes", "Const", "Padding", "RepeatUntil", "If"]
 SHIM = os.path.join(os.path.dirname(os.path.dirname(os.path.dirname(os.path.abspath(__file__)))), "shim")
 
 # ---------------------------------------------------------------- lexing of expression strings (repr of this-expressions)
@@ -297,7 +297,8 @@ def run(ctx):
                 out = set()
                 k = n["k"] + (":includelength" if n["k"] == "Prefixed" and n.get("incl") else "") + \
                     (":slot" if n["k"] == "Padded" and n["sub"]["k"] in ("Array", "Bytes", "Const") else "") + \
-                    (":bits" if n["k"] == "Array" and inbits and n["sub"]["k"] in ("Flag", "BitsInteger") else "")
+                    (":bits" if n["k"] == "Array" and inbits and n["sub"]["k"] in ("Flag", "BitsInteger") else "") + \
+                    (":bits" if n["k"] == "If" and inbits and n["sub"]["k"] in ("Flag", "BitsInteger", "Padding", "Struct") else "")
                 out.add(k)
                 b2 = (inbits or n["k"] in ("BitStruct", "Bitwise")) and n["k"] != "Bytewise"
                 for key in ("sub", "lenf", "then", "else", "default", "field", "cf"):
